@@ -321,10 +321,19 @@ def search(ctx, hints):
         cases.append({"op": "debug", "spec": G.gen_exec(rng, rng.randint(1, min(maxd, 5)), names, kind == "df",
                                                         leaves=("sk", "exact")[t % 2]),
                       "kind": kind, "names": names, "data_seed": rng.randrange(1 << 30)})
+    # KNOWN FINDING probe (input class excluded from the generator, see ASSUMPTIONS): named columns below an
+    # integer-column entry / after a 'passthrough' step, where _pipeline_info only has a list of names left
+    cases.append({"op": "dot", "probe": "named-columns-on-list-data", "kind": "df", "names": ["a", "b", "c"],
+                  "data_seed": 1,
+                  "spec": {"t": "cols", "rem": "drop",
+                           "items": [[{"t": "cols", "rem": "drop", "items": [[E("T", "MinMaxScaler"), ["a"]]]}, [0, 1]]]}})
     best, nontriv, hist = {}, set(), {}
     for case in cases:
         try:
             bad = _run_case(case)
+            if case.get("probe"):
+                bad = [((k + ":" + case["probe"]) if k == "pipeline2dot:raises:AttributeError" else k, w, o, r)
+                       for k, w, o, r in bad]
         except Exception as ex:
             bad = [("harness:%s:%s" % (case["op"], type(ex).__name__),
                     "the oracle could not run the case", "%s: %s" % (type(ex).__name__, str(ex)[:200]), "runs")]
